@@ -55,8 +55,27 @@ def argmax(
 
     """
     a = numpoly.aspolynomial(a)
+    return numpy.argmax(rank_with_ties(a), axis=axis, out=out)
+
+
+def rank_with_ties(a: ndpoly) -> numpy.ndarray:
+    """
+    Rank the elements of `a` such that equal elements share the same rank.
+
+    `numpoly.sortable_proxy` is a permutation and as such orders equal
+    elements arbitrarily; `argmax` and `argmin` must see them as ties to
+    return the first occurrence like numpy does.
+    """
     options = numpoly.get_options()
     proxy = numpoly.sortable_proxy(
         a, graded=options["sort_graded"], reverse=options["sort_reverse"]
     )
-    return numpy.argmax(proxy, axis=axis, out=out)
+    if proxy.size < 2:
+        return proxy
+    order = numpy.argsort(proxy.ravel())
+    ordered = a.ravel()[order]
+    is_new = numpy.ones(proxy.size, dtype=bool)
+    is_new[1:] = numpy.asarray(numpoly.not_equal(ordered[1:], ordered[:-1]))
+    ranks = numpy.empty(proxy.size, dtype=int)
+    ranks[order] = numpy.cumsum(is_new) - 1
+    return ranks.reshape(proxy.shape)
